@@ -1633,6 +1633,8 @@ class Interp:
     # ------------------------------------------------------------ yields
     def do_yield(self, y, st):
         call = y.value
+        if self.record and st.dead():
+            return []        # the path to this action is contradictory: no action, no record
         kind, ordinal = self.yidx.get((y.lineno, y.col_offset % 10000), ("?", -1))
         if ordinal < 0:
             # inlined copy of a closure body: locate by position
